@@ -21,7 +21,7 @@ import asyncio
 from . import events as E
 from .base import Exact, is_sym
 
-CLASSES = {c.__name__: c for c in (E.P, E.C, E.G, E.L, E.X, E.R)}
+CLASSES = {c.__name__: c for c in (E.P, E.C, E.G, E.L, E.X, E.R, E.U)}
 
 
 def env_EventBus():
@@ -46,6 +46,12 @@ def build(ctx):
     par = set(cfg.get('parallel', []))
     hist = cfg.get('max_history', {})
     plain = set(cfg.get('plain_buses', []))
+    wal = set(cfg.get('wal', []))
+    if wal:
+        import os
+        import tempfile
+        from . import env as _env
+        ctx.wal_lines = _env.install_wal_stub()
     for b in cfg['buses']:
         kw = {}
         if b in par:
@@ -53,6 +59,8 @@ def build(ctx):
         if b in hist:
             kw['max_history_size'] = hist[b]
         # a plain bubus.EventBus next to the recording subclass (dispatches to it are recorded by the callers' wrappers)
+        if b in wal:
+            kw['wal_path'] = os.path.join(tempfile.gettempdir(), 'vfw_wal', f'{b}.jsonl')
         ctx.bus(b, cls=env_EventBus() if b in plain else None, **kw)
     ctx.exc_objects = {}
     ctx.bus_reads = []
@@ -85,6 +93,8 @@ def _mk_event(ctx, cls, label, **kw):
         kw['event_timeout'] = None if to[cls] is None else float(Exact(to[cls]))
     elif 'event_timeout' not in kw:
         kw['event_timeout'] = ctx.cfg.get('default_timeout', 60.0)
+    if cls == 'U':
+        kw['blob'] = object()      # a payload field that has no JSON form
     return ctx.ev(CLASSES[cls], label, **kw)
 
 
